@@ -141,6 +141,17 @@ Theorem C10_commuting_second_order_step_is_exact_evolution :
       infinite_sum (fun k => snd (et (Hf (map hterm_of Hhalf)) (0, - t)%R k (get (c0 rops) v) x)) (snd (get (c0 rops) w x)).
 Proof. exact commuting_second_order_exact. Qed.
 Print Assumptions C10_commuting_second_order_step_is_exact_evolution.
+(* k steps of size dt: trotter_evolve_state returns the exact evolution for the time k dt *)
+Theorem C10_commuting_evolution_is_exact :
+  forall par n (H : list (eterm (T:=R))) (dt : R) (k : nat) v,
+  H <> [] -> Forall (term_ok n) H -> length v = N.to_nat (2 ^ n) -> Forall (true_values dt) H ->
+  commuting_terms (map hterm_of H) ->
+  exists w, trotter_evolve rops par First H k (mkState n v) = Ok (mkState n w) /\ length w = N.to_nat (2 ^ n) /\
+    forall x, x < 2 ^ n ->
+      infinite_sum (fun j => fst (et (Hf (map hterm_of H)) (0, - (INR k * dt))%R j (get (c0 rops) v) x)) (fst (get (c0 rops) w x)) /\
+      infinite_sum (fun j => snd (et (Hf (map hterm_of H)) (0, - (INR k * dt))%R j (get (c0 rops) v) x)) (snd (get (c0 rops) w x)).
+Proof. exact commuting_evolve_exact. Qed.
+Print Assumptions C10_commuting_evolution_is_exact.
 (* what the notions mean *)
 Theorem C10_series_term_meaning :
   forall (A : (N -> C (T:=R)) -> N -> C (T:=R)) tau k f x,
